@@ -29,7 +29,7 @@ ASSUMPTIONS = [
     "ACL patterns never split the rows of one rulebook (rule,key): they are the rulebook's patterns, widened (*, truncation + ~) or narrowed to one key",
     "rulebook logics emit only the row or its negation (default, undo_redo, ordered)",
 ]
-FLOORS = {"quick": {"patches_checked": 2000, "commands_checked": 3000, "uncovered_rows_checked": 3000, "cant_delete_rows_checked": 150, "composition_checked": 2000, "front_runs_with_acl": 300, "front_runs_empty_acl": 10, "front_runs_acl_safe": 150, "flat_vendor_cases": 400, "second_devices_with_shared_acl": 800, "shared_subrule_acl_cases": 300, "front_runs_filter_acl": 150, "deploy_front_runs": 500, "cases_with_negated_rows_in_new": 400},
+FLOORS = {"quick": {"patches_checked": 2000, "commands_checked": 3000, "uncovered_rows_checked": 3000, "cant_delete_rows_checked": 150, "composition_checked": 2000, "front_runs_with_acl": 300, "front_runs_empty_acl": 10, "front_runs_acl_safe": 150, "flat_vendor_cases": 400, "second_devices_with_shared_acl": 800, "shared_subrule_acl_cases": 300, "front_runs_filter_acl": 150, "deploy_front_runs": 500, "cases_with_negated_rows_in_new": 400, "front_runs_with_generator_selection": 150},
           "thorough": {"patches_checked": 60000, "commands_checked": 90000, "uncovered_rows_checked": 90000, "cant_delete_rows_checked": 4000, "composition_checked": 60000}}
 VENDORS = c01.BLOCK_VENDORS
 
@@ -320,7 +320,7 @@ def judge_patch(acc, w, vname, U, old, paths, al, ag, tag="", flat=False):
     return acc.counters.get("uncovered_rows_checked", 0) - before
 
 
-def check_front(seed, acc, safe=False, filt=False):
+def check_front(seed, acc, safe=False, filt=False, sel=False):
     """the same safety clauses through the production front end _old_new_per_device (generators -> combined ACL -> old/new -> patch);
     safe=True: the --acl-safe mode, where only the generators' acl_safe texts make up the ACL the patch is confined to"""
     from annet.api import _diff_and_patch
@@ -348,7 +348,31 @@ def check_front(seed, acc, safe=False, filt=False):
         if safe and rng.random() < 0.6:
             a_s = [r for r in a if rng.random() < 0.6]
             safe_text = A.render(a_s)
-        gens.append(H.make_partial("Gen%d" % i, vname, text, H.tree_runner(out), supported=supported, acl_safe_text=safe_text))
+        chosen = True
+        gtags = []
+        if sel:
+            # -g / -G / --force-enabled and the `disable` tag decide which generators run at all: the patch is confined to the ACLs
+            # of the SELECTED generators (decision table: allowed list if given, else not disabled unless forced; minus the excluded)
+            if i == 0:
+                srng = random.Random(seed ^ 0x5E1)
+                names = ["Gen%d" % k for k in range(ngen)]
+                sel_opts = {"allowed": srng.sample(names + ["mgmt"], srng.randint(1, 2)) if srng.random() < 0.5 else None,
+                            "excluded": srng.sample(names + ["mgmt"], 1) if srng.random() < 0.6 else None,
+                            "force": srng.sample(names, 1) if srng.random() < 0.4 else None,
+                            "tags": {nm: (["mgmt"] if srng.random() < 0.4 else []) + (["disable"] if srng.random() < 0.3 else []) for nm in names}}
+            gtags = sel_opts["tags"]["Gen%d" % i]
+            al_ = {"Gen%d" % i, "gen%d" % i, *gtags}
+            if sel_opts["allowed"]:
+                chosen = bool(al_ & set(sel_opts["allowed"]))
+            elif sel_opts["force"]:
+                chosen = ("disable" not in gtags) or bool(al_ & set(sel_opts["force"]))
+            else:
+                chosen = "disable" not in gtags
+            if sel_opts["excluded"] and (al_ & set(sel_opts["excluded"])):
+                chosen = False
+        gens.append(H.make_partial("Gen%d" % i, vname, text, H.tree_runner(out), supported=supported, acl_safe_text=safe_text, tags=gtags))
+        if not chosen:
+            continue
         if safe:
             if supported and safe_text and safe_text.strip():
                 ref_acl += GA.tag_generator(a_s, "Gen%d" % i)
@@ -364,10 +388,25 @@ def check_front(seed, acc, safe=False, filt=False):
         if not ftext.strip():
             fref, ftext = [A.AclRule("~", glob=True)], "~ %global"
         acc.count("front_runs_filter_acl")
-    w = {"front": True, "safe": safe, "filt": filt, "filter_acl": ftext, "seed": seed, "vendor": vname, "rulebook": rtext, "old": plain(old),
+    w = {"front": True, "safe": safe, "filt": filt, "sel": sel, "filter_acl": ftext, "seed": seed, "vendor": vname, "rulebook": rtext, "old": plain(old),
          "generators": [{"name": type(g_).__name__, "supported": bool(g_.supports_device(H.FakeDevice(hw)))} for g_ in gens],
          "acl": A.render(ref_acl)}
     device = H.FakeDevice(hw)
+    if sel:
+        import types as _t2
+        from annet.generators import select_generators
+        opts = _t2.SimpleNamespace(allowed_gens=sel_opts["allowed"], excluded_gens=sel_opts["excluded"], force_enabled=sel_opts["force"], ignore_disabled=False,
+                                   generators_context=None)
+        try:
+            gens = list(select_generators(opts, gens))
+        except Exception as e:
+            acc.violation("C02/front-exception/%s" % type(e).__name__, "select_generators raised", dict(w, error=repr(e)[:300]))
+            return None
+        w["selection"] = {k: v for k, v in sel_opts.items()}
+        w["selected"] = [type(g_).__name__ for g_ in gens]
+        acc.count("front_runs_with_generator_selection")
+        if not gens:
+            return None
     try:
         rb = c01.compile_rb(rtext, vname)
         res = H.old_new(device, gens, fmt.join(old), no_acl_exclusive=True, acl_safe=safe, filter_acl_text=ftext)
@@ -436,7 +475,7 @@ def check_front(seed, acc, safe=False, filt=False):
 def run_shard(spec, acc):
     if spec["mode"] == "replay":
         if spec["witness"].get("front"):
-            check_front(spec["witness"]["seed"], acc, safe=bool(spec["witness"].get("safe")), filt=bool(spec["witness"].get("filt")))
+            check_front(spec["witness"]["seed"], acc, safe=bool(spec["witness"].get("safe")), filt=bool(spec["witness"].get("filt")), sel=bool(spec["witness"].get("sel")))
         else:
             check_case(spec["witness"]["seed"], acc, flat=bool(spec["witness"].get("flat")), shared=bool(spec["witness"].get("shared")),
                        negnew=bool(spec["witness"].get("negnew")))
@@ -454,6 +493,8 @@ def run_shard(spec, acc):
             check_front(rng.randrange(1 << 48), acc, safe=True)
         if j % 6 == 4:
             check_front(rng.randrange(1 << 48), acc, filt=True)
+        if j % 6 == 5:
+            check_front(rng.randrange(1 << 48), acc, sel=True)
         if j % 4 == 2:
             check_case(rng.randrange(1 << 48), acc, flat=True)
         if j % 4 == 0:
